@@ -35,6 +35,9 @@ func (c nCfg) String() string {
 	if c.delta {
 		d = "+delta"
 	}
+	if c.writers > 2 {
+		d += fmt.Sprintf("+w%d", c.writers)
+	}
 	return fmt.Sprintf("%s/%s%s", m, c.cmp, d)
 }
 
@@ -264,12 +267,15 @@ func (e *nEnv) put(w int, bs []byte) *skiplist.Node {
 }
 
 // scan returns the items of an open snapshot in iteration order.
-func scanSnap(s *nitro.Snapshot) ([]string, string) {
+func scanSnap(s *nitro.Snapshot) ([]string, string) { return scanSnapRate(s, 0) }
+
+func scanSnapRate(s *nitro.Snapshot, rate int) ([]string, string) {
 	it := s.NewIterator()
 	if it == nil {
 		return nil, "NewIterator returned nil on an open snapshot"
 	}
 	defer it.Close()
+	it.SetRefreshRate(rate)
 	var out []string
 	for it.SeekFirst(); it.Valid(); it.Next() {
 		out = append(out, string(it.Get()))
